@@ -32,7 +32,25 @@ def put(name, body):
     assert a in d and b in d, name
     d = d[:d.index(a) + len(a)] + "\n" + body + "\n" + d[d.index(b):]
 
+def status():
+    import importlib, sys
+    sys.path.insert(0, ROOT); sys.path.insert(0, "/repo")
+    acc = json.load(open(os.path.join(ROOT, "tools", "accepted.json")))
+    out = []
+    for pid in sorted(acc):
+        pv = os.path.join(ROOT, "coq", pid, "Property.v")
+        txt = re.sub(r"\(\*.*?\*\)", "", open(pv).read(), flags=re.S) if os.path.exists(pv) else ""
+        names = re.findall(r"^\s*(?:Theorem|Lemma|Corollary)\s+([A-Za-z_][\w']*)", txt, re.M)
+        mod = importlib.import_module("harness.props." + pid.lower())
+        partial = [n for n in names if n.endswith("_partial") or "_partial_" in n]
+        refuted = [n for n in names if "refuted" in n]
+        out.append("### %s\n* theorems in `coq/%s/Property.v` (%d): %s\n* partial: %s; refutation witnesses: %s\n* trusted/assumed: %s\n* details: `coq/%s/NOTES.md`\n"
+                   % (pid, pid, len(names), ", ".join("`%s`" % n for n in names), ", ".join(partial) or "none", ", ".join(refuted) or "none",
+                      getattr(mod, "LEVEL_NOTE", ""), pid))
+    return "\n".join(out)
+
 put("FIXED", table_fixed())
+put("STATUS", status())
 put("OPEN", table_open())
 put("SEEDED", table_seeded())
 open(os.path.join(ROOT, "DESIGN.md"), "w").write(d)
